@@ -32,7 +32,7 @@ fn fits(w: &[u64; W], bits: u32, signed: bool) -> (bool, u128) {
 macro_rules! to_prim_shape {
     ($name:ident, $T:ty, $to:ident, $bits:expr, $signed:expr, $neg:expr, $l:expr) => {
         #[kani::proof]
-        #[kani::unwind(12)]
+        #[kani::unwind(34)]
         fn $name() {
             let a0: [u64; $l] = vc::any_canon::<$l>();
             let x = mkint($neg, &a0);
@@ -89,7 +89,7 @@ fn window_of_u128(v: u128) -> [u64; W] {
 macro_rules! from_signed_shape {
     ($name:ident, $T:ty, $from:ident) => {
         #[kani::proof]
-        #[kani::unwind(12)]
+        #[kani::unwind(34)]
         fn $name() {
             let n: $T = kani::any();
             let w = window_of_i128(n as i128);
@@ -121,7 +121,7 @@ macro_rules! from_signed_shape {
 macro_rules! from_unsigned_shape {
     ($name:ident, $T:ty, $from:ident) => {
         #[kani::proof]
-        #[kani::unwind(12)]
+        #[kani::unwind(34)]
         fn $name() {
             let n: $T = kani::any();
             let w = window_of_u128(n as u128);
@@ -148,7 +148,7 @@ macro_rules! from_unsigned_shape {
     };
 }
 #[kani::proof]
-#[kani::unwind(12)]
+#[kani::unwind(34)]
 fn c08_q_from_bool() {
     let b: bool = kani::any();
     let w = window_of_u128(b as u128);
